@@ -2,5 +2,4 @@
 UC = "check under construction in this round (see DESIGN.md §1); not claimed until its harnesses are committed and pass on the unchanged tree"
 NOT_APPLICABLE = {
     "C15": "migration is file-system orchestration (temp file, hard link, identity stamps) around two whole store instances; no part of it is a bounded computation the solver engines can reach",
-    "C18": "termination/deadlock freedom over threads, channels and locks: Kani does not model threads and a lock-order argument over MIR would be static analysis, not symbolic execution with a solver verdict",
 }
